@@ -100,40 +100,35 @@ def run(ctx):
     # ---------------- R2 handles
     r2 = chk.rule("C19.R2", "handle pairing: fresh boxes out, exactly one from_raw per type under a null check, nothing derived from a handle escapes",
                   "every pointer returned is valid until its matching free and unaffected by later calls; a full life cycle frees everything once")
-    free_fn = [k for k, f in prog.fns.items() if k.startswith("ffi::") and not f.get("no_mangle") and f.get("generics")]
-    # the generic free helper
-    helper_ok = False
-    helper = None
-    for k in free_fn:
-        b = prog.body(k)
-        fr = [(bb, t) for (bb, t) in b.calls() if callee_name(t).endswith("Box::<T>::from_raw")]
-        if len(fr) == 1:
-            helper = k
-            bb, t = fr[0]
-            a = strip_refs(b.expr_operand(t["args"][0]))
-            g = guards_of(b, bb)
-            guarded = any(d.k == "call" and d.a[0].endswith("is_null") and strip_refs(d.a[1][0]).k == "arg" and pol is False for (d, pol, s) in g)
-            dropped = any(callee_name(t2).endswith("mem::drop") or True for (_, t2) in b.calls())
-            if a.k == "arg" and a.a[0] == 1 and guarded:
-                helper_ok = True
-                r2.ok("free-helper", "drop(Box::from_raw(ptr)) only when !ptr.is_null()")
-            else:
-                r2.violation("free-helper", "Box::from_raw is applied to %r %s" % (a, "" if guarded else "without a null check"), site_of(b, bb))
-    if helper is None:
-        r2.violation("free-helper", "no helper reaches Box::from_raw", None)
+    from . import roles as _roles
+
+    def wbody(k):
+        # the wrapper with the C shim's private helpers (free helper, string hand-over helper) spliced in
+        return _roles.ib(prog, k)
     for sym, ty in FREE.items():
         if sym not in by_sym:
             r2.violation("free:%s" % sym, "exported free function %s missing" % sym, None)
             continue
-        b = prog.body(by_sym[sym])
-        calls = [(bb, t) for (bb, t) in b.calls()]
-        good = len(calls) == 1 and callee_name(calls[0][1]) == helper and strip_refs(b.expr_operand(calls[0][1]["args"][0])).k == "arg" \
-            and (calls[0][1].get("callee") or {}).get("substs") == [ty]
-        direct = [(bb, t) for (bb, t) in calls if callee_name(t).endswith("Box::<T>::from_raw")]
-        if good or (direct and len(calls) <= 3):
-            r2.ok("free:%s" % sym, "%s(ptr) frees a Box<%s>" % (sym, ty.split("::")[-1]))
+        k = by_sym[sym]
+        b = wbody(k)
+        fr = [(bb, t) for (bb, t) in b.calls() if callee_name(t).endswith("Box::<T>::from_raw")]
+        if prog.fns[k]["inputs"] != ["*mut " + ty]:
+            r2.violation("free:%s" % sym, "%s takes %s, expected one *mut %s" % (sym, prog.fns[k]["inputs"], ty), common.fn_line(prog, k))
+        elif len(fr) != 1:
+            r2.violation("free:%s" % sym, "%s reaches Box::from_raw %d times (expected once)" % (sym, len(fr)), common.fn_line(prog, k))
         else:
-            r2.violation("free:%s" % sym, "%s does not hand exactly its parameter to the free helper for %s" % (sym, ty), common.fn_line(prog, by_sym[sym]))
+            bb, t = fr[0]
+            a_ = _norm_ptr(b.expr_operand(t["args"][0]))
+            if not (a_.k == "arg" and a_.a[0] == 1):
+                r2.violation("free:%s" % sym, "%s applies Box::from_raw to %r, not to exactly its parameter" % (sym, a_), site_of(b, bb))
+            elif not _null_guarded(b, bb, 1):
+                r2.violation("free:%s" % sym, "%s applies Box::from_raw to its parameter without a null check" % sym, site_of(b, bb))
+            else:
+                extra = [(d, pol) for (d, pol, s_) in guards_of(b, bb) if not _is_null_test(d) and not _is_ub_check(d)]
+                if extra:
+                    r2.violation("free:%s" % sym, "%s frees its handle only under %s" % (sym, extra[0]), site_of(b, bb))
+                else:
+                    r2.ok("free:%s" % sym, "%s(ptr): drop(Box::<%s>::from_raw(ptr)) iff ptr is non-null" % (sym, ty.split("::")[-1]))
     # who else reaches from_raw
     for sym, k in by_sym.items():
         if sym in FREE or sym == "riti_string_free":
@@ -147,7 +142,7 @@ def run(ctx):
     # constructors return fresh boxes; nothing derived from a handle escapes
     for sym, k in sorted(by_sym.items()):
         f = prog.fns[k]
-        b = prog.body(k)
+        b = wbody(k)
         out = f["output"]
         if out.startswith("*mut ") and not out.endswith("i8") and "c_char" not in out:
             ret = strip_refs(b.expr_local(0))
@@ -170,19 +165,23 @@ def run(ctx):
                         e = e.a[1]
                     if e.k == "arg" and e.a[0] == pi:          # the raw pointer value itself (not a reference formed from it)
                         n = callee_name(t)
-                        if not (n.endswith("is_null") or n == helper or n.endswith("CStr::from_ptr") or n.endswith("CString::from_raw")
-                                or n.endswith("Box::<T>::from_raw")):
+                        if not (n.endswith("is_null") or n.endswith("CStr::from_ptr") or n.endswith("CString::from_raw")
+                                or n.endswith("Box::<T>::from_raw") or n.endswith("NonNull::<T>::new")):
                             r2.violation("escape:%s" % sym, "%s passes its raw handle to %s" % (sym, n), site_of(b, bb))
             # dereference must be dominated by the null assert
             for (i, j, s) in b.stmts():
-                if s["k"] == "assign" and s["rv"]["k"] == "ref" and s["rv"]["place"]["l"] == pi and s["rv"]["place"]["p"] == ["*"]:
-                    g = guards_of(b, i)
-                    ok_null = any(d.k == "call" and d.a[0].endswith("is_null") and pol is False for (d, pol, s_) in g)
+                if s["k"] == "assign" and s["rv"]["k"] == "ref" and s["rv"]["place"]["p"] == ["*"]:
+                    base = _norm_ptr(b.expr_local(s["rv"]["place"]["l"]) if s["rv"]["place"]["l"] != pi else E("arg", pi))
+                    while base.k == "cast":
+                        base = strip_refs(base.a[1])
+                    if not (base.k == "arg" and base.a[0] == pi):
+                        continue
+                    ok_null = _null_guarded(b, i, pi)
                     if ok_null:
                         r2.ok("deref:%s:%d" % (sym, pi), "&*ptr after the null assert")
                     else:
                         r2.violation("deref:%s:%d" % (sym, pi), "%s dereferences parameter %d without a dominating null assert" % (sym, pi), site_of(b, i))
-    r2.floor(8, "helper, 3 frees, 3 constructors, derefs")
+    r2.floor(8, "3 frees, 3 constructors, derefs")
 
     # ---------------- R3 pairing / strings
     r3 = chk.rule("C19.R3", "each wrapper calls exactly its paired Rust method with its own parameters in order; strings are fresh owned copies of that value",
@@ -193,7 +192,7 @@ def run(ctx):
             continue
         k = by_sym[sym]
         f = prog.fns[k]
-        b = prog.body(k)
+        b = wbody(k)
         local_calls = [(bb, t) for (bb, t) in b.calls() if callee_name(t) in prog.fns]
         want = [x for x in prog.fns if prog.fns[x].get("name") == meth and (prog.fns[x].get("impl") or {}).get("self") == owner and not (prog.fns[x].get("impl") or {}).get("trait")]
         if len(want) != 1:
@@ -256,7 +255,7 @@ def run(ctx):
                 r3.violation("pair:%s" % sym, "%s returns %r instead of %s's result" % (sym, ret, meth), common.fn_line(prog, k))
                 continue
         # a single path: no early return around the paired call (other than the null asserts)
-        extra_guards = [(d, pol) for (d, pol, s) in guards_of(b, bb) if not (d.k == "call" and d.a[0].endswith("is_null")) and not _is_ub_check(d)]
+        extra_guards = [(d, pol) for (d, pol, s) in guards_of(b, bb) if not _is_null_test(d) and not _is_ub_check(d)]
         if extra_guards:
             r3.violation("pair:%s" % sym, "%s reaches %s only under %s" % (sym, meth, extra_guards[0]), site_of(b, bb))
             continue
@@ -264,16 +263,16 @@ def run(ctx):
     # string free
     if "riti_string_free" in by_sym:
         k = by_sym["riti_string_free"]
-        b = prog.body(k)
+        b = wbody(k)
         fr = [(bb, t) for (bb, t) in b.calls() if callee_name(t).endswith("CString::from_raw")]
         if len(fr) != 1:
             r3.violation("string-free", "riti_string_free calls CString::from_raw %d times" % len(fr), common.fn_line(prog, k))
         else:
             bb, t = fr[0]
             g = [(d, pol) for (d, pol, s) in guards_of(b, bb) if not _is_ub_check(d)]
-            a = strip_refs(b.expr_operand(t["args"][0]))
-            nullg = [x for x in g if x[0].k == "call" and x[0].a[0].endswith("is_null") and x[1] is False]
-            extra = [x for x in g if x not in nullg]
+            a = _norm_ptr(b.expr_operand(t["args"][0]))
+            nullg = _null_guarded(b, bb, 1)
+            extra = [x for x in g if not _is_null_test(x[0])]
             if a.k == "arg" and a.a[0] == 1 and nullg and not extra:
                 r3.ok("string-free", "no-op on null, otherwise drop(CString::from_raw(ptr)) — and on nothing else")
             else:
@@ -368,6 +367,46 @@ def run(ctx):
             r6.ok("data:%s" % fname, "no NUL")
     r6.assume("layout files supplied at run time contain no NUL in their key values")
     r6.floor(5, "key table + 4 data files")
+
+
+def _norm_ptr(e):
+    """The raw pointer an expression denotes: looks through NonNull::new(p) … Some(nn) … nn.as_ptr() (the same address by definition)."""
+    e = strip_refs(e)
+    for _ in range(4):
+        if e.k == "call" and e.a[0].endswith("NonNull::<T>::as_ptr"):
+            x = strip_refs(e.a[1][0])
+            if x.k == "field" and strip_refs(x.a[0]).k == "downcast":
+                src = strip_refs(strip_refs(x.a[0]).a[0])
+                if src.k == "call" and src.a[0].endswith("NonNull::<T>::new"):
+                    e = strip_refs(src.a[1][0])
+                    continue
+        break
+    return e
+
+
+def _null_guarded(b, bb, pi):
+    """Block bb runs only when parameter pi is non-null: !is_null() edge, or the Some edge of NonNull::new(param)."""
+    for (d, pol, s_) in guards_of(b, bb):
+        if d.k == "call" and d.a[0].endswith("is_null") and pol is False:
+            x = _norm_ptr(d.a[1][0])
+            if pi is None or (x.k == "arg" and x.a[0] == pi):
+                return True
+        if d.k == "discr":
+            src = strip_refs(d.a[0])
+            if src.k == "call" and src.a[0].endswith("NonNull::<T>::new"):
+                x = strip_refs(src.a[1][0])
+                explicit = {v for v, _ in b.blocks[s_]["term"]["targets"]}
+                some_edge = pol == (1,) or (pol == "otherwise" and explicit == {0})
+                if some_edge and (pi is None or (x.k == "arg" and x.a[0] == pi)):
+                    return True
+    return False
+
+
+def _is_null_test(d):
+    d = strip_refs(d)
+    if d.k == "call" and d.a[0].endswith("is_null"):
+        return True
+    return d.k == "discr" and strip_refs(d.a[0]).k == "call" and strip_refs(d.a[0]).a[0].endswith("NonNull::<T>::new")
 
 
 def _is_ub_check(d):
